@@ -28,13 +28,42 @@ ASSUMPTIONS = [
     "str subclasses and objects with exotic __eq__ are not driven (statement silent)",
 ]
 REQUIRED = {"all": ["accepted_valid", "accepted_with_whitespace", "accepted_lowercase", "rejected_invalid",
-                    "rejected_invalid_with_whitespace", "rejected_blank", "rejected_non_string", "battery_compared"]}
+                    "rejected_invalid_with_whitespace", "rejected_blank", "rejected_non_string", "battery_compared", "lookalike_code_points"]}
 NVALID = {"quick": 1500, "thorough": 15000}
 NBASE = {"quick": 2, "thorough": 6}
 SPACES = [chr(i) for i in list(range(0, 0x3100)) if chr(i).isspace()]
 UNICODE_PANEL = list("0123456789.,;:-_*#+!?()[]{}<>/\\|'\"`~^&%$@=") + list("BJOUXZbjouxz") + \
     ["А", "Е", "К", "Κ", "Α", "ß", "ﬁ", "ı", "Å", "é", "​",
      "﻿", "\u0000", "\u007f", "­", "Ａ", "\U0001d400", "①"]
+
+
+def lookalike_code_points():
+    """Non-ASCII code points that some case mapping or compatibility normalisation sends onto residue letters (KELVIN SIGN,
+    dotted capital I, long s, ligatures, full-width / mathematical / circled letters ...).  The constructor is documented to
+    upper-case with str.upper() and nothing else, so each of them is accepted exactly when its upper() spells residues."""
+    import unicodedata
+    aa = set("ACDEFGHIKLMNPQRSTVWY")
+    fold, compat = [], []
+    for cp in range(128, 0x110000):
+        if 0xD800 <= cp <= 0xDFFF:
+            continue
+        c = chr(cp)
+        forms = {c.upper(), c.lower(), c.casefold()}
+        hit = False
+        for f in forms:
+            g = "".join(ch for ch in f if not unicodedata.combining(ch))
+            if g and g != c and set(g.upper()) <= aa:
+                hit = True
+        if hit:
+            fold.append(c)
+            continue
+        if unicodedata.decomposition(c):
+            g = "".join(ch for ch in unicodedata.normalize("NFKD", c) if not unicodedata.combining(ch))
+            if g and g != c and set(g.upper()) <= aa:
+                compat.append(c)
+    return fold, compat
+
+
 NON_STRINGS = ["None", "0", "1", "1.5", "True", "False", "bytes", "bytearray", "list", "tuple", "dict", "object", "set",
                "list_empty", "nan", "inf", "np_nan", "np_inf32", "decimal_nan", "np_false", "str_method_object", "backend_sequence",
                "letters_list", "complex"]
@@ -103,6 +132,16 @@ def cases(tier, seed):
     for ch in UNICODE_PANEL:
         if len(ch) > 1:
             yield {"s": "ACD" + ch + "EFG"}
+    fold, compat = lookalike_code_points()
+    for ch in fold:
+        for base in bases[:2]:
+            for i in (0, len(base) // 2, len(base)):
+                yield {"s": base[:i] + ch + base[i:], "lookalike": 1}
+        yield {"s": ch, "lookalike": 1}
+        yield {"s": ch * 3 + " ", "lookalike": 1}
+    for k, ch in enumerate(compat):
+        if tier == "thorough" or k % 4 == seed % 4:
+            yield {"s": "MDVF" + ch + "KGLSK", "lookalike": 1}
     for base in bases + gen.CODE_WORDS[:6]:
         for s in (base + "\n", base.lower() + "\n", base + "\r\n", "\n" + base, base + " ", base + "\t"):
             yield {"s": s}
@@ -212,6 +251,8 @@ def judge(case, rep, S):
         return judge_in_populated_cwd(case, rep, S)
     n = norm(s)
     valid = len(n) > 0 and all(c in M.AA for c in n)
+    if case.get("lookalike"):
+        rep.cnt("lookalike_code_points")
     has_ws = any(c.isspace() for c in s)
     try:
         obj = SP(s) if len(s) % 2 else SP(sequence=s)
